@@ -540,12 +540,18 @@ func (b *Buffer) deleteGlyphsInplace(filter func(*GlyphInfo) bool) {
 
 		if j != i {
 			info[j] = info[i]
-			pos[j] = pos[i]
+			if i < len(pos) {
+				// before positions exist, glyph insertion may
+				// have made Info longer than Pos
+				pos[j] = pos[i]
+			}
 		}
 		j++
 	}
 	b.Info = b.Info[:j]
-	b.Pos = b.Pos[:j]
+	if j <= len(b.Pos) {
+		b.Pos = b.Pos[:j]
+	}
 }
 
 // unsafeToBreak adds the flag `GlyphFlagUnsafeToBreak`
